@@ -116,6 +116,16 @@ CHECKS["C12"] = dict(
     note=NOTE_BASE + "The asyncio receive loop itself is exercised, not modelled (its termination behaviour is C18's model).",
     technique="Coq proof (frame / ignore theorems over the driver model) + fault-catalogue correspondence through real transports",
     design="4/C12")
+CHECKS["C15"] = dict(
+    text="Theorems over the (total) client model, for every mirror and every message: definition_creates_or_replaces_the_property, "
+         "definition_touches_nothing_else, update_of_unknown_target_or_other_kind_is_ignored, update_touches_no_other_property, "
+         "update_keeps_the_element_set, deletion_removes_the_named_property, nameless_deletion_removes_the_device, everything_else_is_ignored. "
+         "Correspondence: BaseClient fed directly, from re-parsed serialisations, through the real client connection handler in foreign spellings "
+         "and random pieces, and a SnoopingClient behind a router; public view compared with the model and with an independent Python reference "
+         "interpreter of the INDI client rules; no exception, receive loop alive.",
+    note=NOTE_BASE + "Modelled: Python dict ordering (replace in place / append), base64 laxity.",
+    technique="Coq proof (effect/frame theorems of the mirror) + correspondence + independent reference interpreter",
+    design="4/C15")
 PENDING = {}
 props = [json.loads(l) for l in open(os.path.join(V, "properties.jsonl"))]
 checks, na = [], []
